@@ -191,6 +191,22 @@ def run(prop, tier, seed):
                 pev = record_events(pools, work, name="pool")
                 judge(c, prop, pev, work, "pools")
                 c.evaluations += sum(len(p["items"]) ** 2 for p in pools)
+                # exhaustive collision check: products over optional metrics in every spelling; every row's objects in one set / dict
+                import tables
+                etabs = tables.eq_tables(tier, seed)
+                files, total = tables.record(etabs, work, seed, nsamples=1, eqsets=True)
+                c.evaluations += total
+                for path, nr, nent in files:
+                    r = tlc_or_die("TraceScores", cfg="TraceScores_eqsets.cfg", env={"TRACE_FILE": path, "NEED_V3": "0", "NEED_V2": "0"}, timeout=7200)
+                    c.add_tlc("TraceScores eqsets %s" % os.path.basename(path), r)
+                    if r.distinct != 2 * nr:
+                        raise MachineryError("TLC judged %d of %d rows" % (r.distinct // 2, nr))
+                    c.traces += nr
+                    for l in r.lines:
+                        if l.startswith("FAIL "):
+                            c.violation("C07|%s|v%s" % (" ".join(l.split()[2:4]), "?"), l, None)
+                    os.remove(path)
+                c.extra["objects_in_exhaustive_equality_sets"] = total
             if prop == "C08":
                 # the interactive builder's return value: complete sessions, official pattern demanded
                 from props import interactive16
